@@ -816,7 +816,7 @@ def _patch_engine():
         op = node.op
         if isinstance(op, ast.Add) and self.is_str(a) and self.is_str(b):
             return SV("v", L.sconcat(self.to_v(a), self.to_v(b)), "str")
-        if isinstance(op, ast.Add) and (a.kind in ("seq", "tuple") or b.kind in ("seq", "tuple") or (m.spec and self.is_listlike(a))):
+        if isinstance(op, ast.Add) and (a.kind in ("seq", "tuple") or b.kind in ("seq", "tuple") or (self.is_listlike(a) and self.is_listlike(b))):
             return SV("seq", L.cat(self.as_seq(a, st), self.as_seq(b, st)))
         if m.spec and self.is_setlike(a) and self.is_setlike(b):
             sa, sb = self.as_set(a, st), self.as_set(b, st)
@@ -1686,6 +1686,23 @@ def _patch_exec():
                     vals = self.hget(st, "$dval", d.t)
                     P = self.dict_filter_pred(g, st, vals)
                     return k(SV("py", py=("pairs", L.filt(P, keys), vals)), st)
+        if isinstance(node, ast.ListComp) and len(node.generators) == 1:
+            g = node.generators[0]
+            e = node.elt
+            if (isinstance(e, ast.Call) and isinstance(e.func, ast.Attribute) and e.func.attr == "popleft" and not e.args and not g.ifs
+                    and isinstance(g.iter, ast.Call) and isinstance(g.iter.func, ast.Name) and g.iter.func.id == "range" and len(g.iter.args) == 1):
+                dq = self.pev(e.func.value, st, Mode(False))
+                if dq.kind == "v" and dq.hint == "deque":
+                    def got_n(nsv, st1):
+                        n = self.as_int(nsv)
+                        sq = self.hget(st1, "$seq", dq.t)
+                        n0 = If(n < 0, IntVal(0), n)
+                        def cont(st2):
+                            r, st3 = self.new_list(st2, L.slc(sq, IntVal(0), n0))
+                            k(r, self.hset(st3, "$seq", dq.t, L.slc(sq, n0, L.slen(sq))))
+                        # popleft on an empty deque raises IndexError
+                        return self.branch_checks([(n0 <= L.slen(sq), "IndexError", node)], st1, ctx, cont)
+                    return self.ev(g.iter.args[0], st, ctx, got_n)
         if isinstance(node, ast.ListComp):
             sv = self.pev_ListComp(node, st, Mode(False, None, None))
             r, st2 = self.new_list(st, sv.t)
@@ -2607,8 +2624,10 @@ def _patch_calls():
             if tgt == "tuple":
                 return self.ev_list(node.args, st, ctx, lambda svs, st2: k(SV("tuple", items=list(svs)), st2))
             if tgt == "newdeque":
-                r, st2 = self.alloc_obj(st, "deque", "dq")
-                return k(r, self.hset(st2, "$seq", r.t, L.sempty))
+                def mk(svs, st1):
+                    r, st2 = self.alloc_obj(st1, "deque", "dq")
+                    k(r, self.hset(st2, "$seq", r.t, self.as_seq(svs[0], st1) if svs else L.sempty))
+                return self.ev_list(node.args, st, ctx, mk)
             if tgt == "ddset":
                 r, st2 = self.alloc_obj(st, "ddset", "dd")
                 st2 = self.hset(st2, "$dd", r.t, K(V, K(V, False)))
